@@ -120,6 +120,11 @@ def strategy_(draw, tier):
         if v['div'] == 'user':
             base = base + ['u%d' % i]       # own branch holding v and 'other'
         v['path'] = base + [v['name']]
+        # declared only by the process outside the compartment (through its
+        # glob sub-schema), not by the cell's own processes
+        if v['div'] != 'user' and draw(st.integers(0, 3)) == 0:
+            v['outer'] = True
+            v['path'] = ['env'] + v['path']
         vars_.append(v)
     bag = None
     if draw(st.integers(0, 3)) == 0:
@@ -158,9 +163,14 @@ def strategy(tier):
 
 # ------------------------------------------------------------------ build
 
-def schema_desc(spec, extra=False):
-    desc = {'active': {'_default': 0, '_updater': 'set', '_emit': True}}
+def schema_desc(spec, extra=False, outer=False):
+    """outer=False: what the cell's own processes declare; outer=True: what
+    only the outside process declares for every cell ('*' sub-schema)."""
+    desc = {} if outer else {
+        'active': {'_default': 0, '_updater': 'set', '_emit': True}}
     for v in spec['vars']:
+        if bool(v.get('outer')) != outer:
+            continue
         leaf = {'_default': v['default'], '_emit': True}
         if v['div'] is not None:
             leaf['_divider'] = v['div']
@@ -180,6 +190,8 @@ def schema_desc(spec, extra=False):
             put(desc, v['path'][:-1] + ['other'],
                 {'_default': 0, '_emit': True})
         put(desc, v['path'], leaf)
+    if outer:
+        return desc
     if spec['bag']:
         b = {'_divider': 'split_dict'}
         for k in ['b1', 'b2', 'b3', 'b4']:
@@ -366,7 +378,11 @@ def run_case(spec):
         p, s, f, t = kit.cell_parts(ctx.run_id, '0', desc, mode)
         processes = {'agents': {'0': p},
                      'DIV': kit.DivProcess({'name': 'DIV', 'run_id': ctx.run_id,
-                                            'schema': desc, 'mode': trig})}
+                                            'schema': desc, 'mode': trig,
+                                            'outer': schema_desc(
+                                                spec, outer=True)})}
+        if any(v.get('outer') for v in spec['vars']):
+            res.label('declared_outside_only')
         topology = {'agents': {'0': t},
                     'DIV': {'agents': ('agents',), 'clock': ('clock',)}}
         kwargs = dict(processes=processes, topology=topology,
@@ -430,8 +446,8 @@ def run_case(spec):
         before_cells = copy.deepcopy(before_cells)
         act = {}
         for v in spec['vars']:
-            if v['kind'] == 'int' and v['div'] in ('set', None, 'split', 'zero',
-                                                   'binomial', 'user'):
+            if v['kind'] == 'int' and not v.get('outer') and v['div'] in (
+                    'set', None, 'split', 'zero', 'binomial', 'user'):
                 put(act, v['path'], 1)
         if spec['dv']:
             act['dv'] = {'k': {'n': 5}}
